@@ -130,6 +130,7 @@ func run(r *vt.Run, t vt.TB, s spec) {
 		mixed[i], mixed[j] = mixed[j], mixed[i]
 	}
 	order := append(append(append([]int64{}, ps...), desc...), mixed...)
+	subsets := map[bool]int{}
 	for _, p := range order {
 		row, present := want[p]
 		// low level
@@ -169,6 +170,56 @@ func run(r *vt.Run, t vt.TB, s spec) {
 				return
 			}
 		}
+		// the same lookup asking for a subset of the columns, in another
+		// order, or for none at all (an existence check: SelectRowid is
+		// documented to return a nil row only when the rowid isn't found)
+		seed = seed*6364136223846793005 + 1442695040888963407
+		var sub []string
+		var subIdx []int
+		if (seed>>40)%3 != 0 {
+			m := seed >> 20
+			for i := len(cols) - 1; i >= 0; i-- {
+				if m&(1<<uint(i%16)) != 0 {
+					sub = append(sub, cols[i])
+					subIdx = append(subIdx, i)
+				}
+			}
+		}
+		subsets[len(sub) == 0]++
+		srow, err := hl.SelectRowid("t", p, sub...)
+		if err != nil {
+			fail("high:subset-error", "SelectRowid(%d, columns %v): error %v (present=%v)", p, sub, err, present)
+			return
+		}
+		if !present && srow != nil {
+			fail("high:subset-phantom", "SelectRowid(%d, columns %v) returns %#v but no such row exists", p, sub, srow)
+			return
+		}
+		if present {
+			full := append([]val.V{val.Int(p)}, tb.Spec.Logical(row)...)
+			var exp []val.V
+			for _, i := range subIdx {
+				exp = append(exp, full[i])
+			}
+			got, ok := bt.RecordVals(sdb.Record(srow))
+			if srow == nil || len(srow) != len(sub) || !ok || !bt.ValsEqual(got, exp) {
+				fail("high:subset-missing-or-wrong", "SelectRowid(%d, columns %v) = %#v, want the existing row's %v", p, sub, srow, val.Row(exp))
+				return
+			}
+		}
+		if tb.Spec.RowidAlias {
+			calls := 0
+			var last sqlittle.Row
+			err := hl.PKSelect("t", sqlittle.Key{p}, func(row sqlittle.Row) { calls++; last = row }, sub...)
+			wantCalls := 0
+			if present {
+				wantCalls = 1
+			}
+			if err != nil || calls != wantCalls || (present && len(last) != len(sub)) {
+				fail("pk:subset", "PKSelect(%d, columns %v): %d callbacks (last row %#v), error %v; present=%v", p, sub, calls, last, err, present)
+				return
+			}
+		}
 		// primary key select on an INTEGER PRIMARY KEY table
 		if tb.Spec.RowidAlias {
 			var rows []sqlittle.Row
@@ -195,6 +246,8 @@ func run(r *vt.Run, t vt.TB, s spec) {
 			}
 		}
 	}
+	r.Count("lookups-with-column-subset", subsets[false])
+	r.Count("lookups-with-no-columns", subsets[true])
 	if vt.Sampled(s, 10) {
 		diff, err := bt.SQLiteAgrees(env.O, env.Dir, built)
 		if err != nil {
